@@ -41,6 +41,33 @@ func c13f(c *Ctx) {
 			}
 			h := heads[ci.Block()]
 			if h == nil {
+				// the step of a gathering loop under its own name (`appendValue(&sb)` called from the
+				// loop): the whole helper is one iteration
+				inLoopSomewhere := false
+				for _, site := range c.W.callsTo(fn) {
+					if loopHeaders(site.Parent())[site.Block()] != nil {
+						inLoopSomewhere = true
+					}
+				}
+				if !inLoopSomewhere {
+					continue
+				}
+				nLoops++
+				ord++
+				T := ci.(ssa.Instruction)
+				sb := ci.Common().Args[0]
+				key := fmt.Sprintf("%s/gather-step#%d", fk, ord)
+				pos := c.W.Pos(ci.Pos())
+				_, skip := existsPath(pathQuery{from: entry(fn), avoid: func(x ssa.Instruction) bool { return x == T }, edgeOK: notErrorEdge, exitIs: true})
+				c.Check(!skip, key+"/every-token-written", pos, "every call of the step writes its token", "the gathering step can return without writing its token: the gathered value would lack tokens of the source")
+				dT := pc.canonOf(pc.At(T.Block()))
+				for _, cj := range callsIn(fn) {
+					n := calleeName(cj)
+					if !strings.HasPrefix(n, "(*strings.Builder).Write") || cj == ci || cj.Common().Args[0] != sb {
+						continue
+					}
+					c13fSeparator(c, fn, cj, dT, fmt.Sprintf("%s/separator@%d", key, c.T(fn).callOrd[cj]))
+				}
 				continue
 			}
 			nLoops++
@@ -70,39 +97,44 @@ func c13f(c *Ctx) {
 				if !strings.HasPrefix(n, "(*strings.Builder).Write") || cj == ci || cj.Common().Args[0] != sb || !body[cj.Block()] || heads[cj.Block()] != h {
 					continue
 				}
-				a := cj.Common().Args[1]
-				isSpace := false
-				if s, ok := strConst(a); ok && s == " " {
-					isSpace = true
-				}
-				if k, ok := intConst(a); ok && k == 32 {
-					isSpace = true
-				}
-				skey := fmt.Sprintf("%s/separator@%d", key, c.T(fn).callOrd[cj])
-				spos := c.W.Pos(cj.Pos())
-				if !isSpace {
-					c.Bad(skey, spos, "the gathering loop writes "+pretty(c.term(fn, a))+" besides the token: the value is not the tokens joined by single spaces")
-					continue
-				}
-				dS := pc.canonOf(pc.At(cj.Block()))
-				okSep := false
-				lenLit := ""
-				for _, cj2 := range dS.cs {
-					for _, l := range cj2 {
-						if strings.Contains(l, "(*strings.Builder).Len(") {
-							lenLit = l
-						}
-					}
-				}
-				if lenLit != "" {
-					// the literal must mean "length is positive"
-					nl := normLit(lenLit)
-					positive := strings.HasPrefix(nl, "+(0 < (*strings.Builder).Len(") || strings.HasPrefix(nl, "-((*strings.Builder).Len(") && strings.HasSuffix(nl, " == 0)") || strings.HasPrefix(nl, "+((*strings.Builder).Len(") && strings.HasSuffix(nl, " != 0)")
-					okSep = positive && dnfEquiv(dS, dnfAndLit(dT, lenLit))
-				}
-				c.Check(okSep, skey, spos, "one space, exactly when the builder is not empty", "the separator is written under "+dS.String()+", expected exactly when the builder already holds text (token write: "+dT.String()+"): tokens would be joined differently from the way the same text is joined when written out in place")
+				c13fSeparator(c, fn, cj, dT, fmt.Sprintf("%s/separator@%d", key, c.T(fn).callOrd[cj]))
 			}
 		}
 	}
-	c.Check(nLoops >= 3, "gathering-loops/scanned", "-", fmt.Sprintf("%d gathering loops", nLoops), fmt.Sprintf("expected at least 3 loops that gather substituted tokens in a builder, found %d", nLoops))
+	c.Check(nLoops >= 2, "gathering-loops/scanned", "-", fmt.Sprintf("%d gathering loops or steps", nLoops), fmt.Sprintf("expected at least 2 places that gather substituted tokens in a builder (constants, map script table values), found %d", nLoops))
+}
+
+// c13fSeparator: the write cj (to the gathering builder, other than the token write whose
+// condition is dT) is one space, written exactly when the builder already holds text.
+func c13fSeparator(c *Ctx, fn *ssa.Function, cj ssa.CallInstruction, dT dnf, skey string) {
+	pc := c.PC(fn)
+	a := cj.Common().Args[1]
+	isSpace := false
+	if s, ok := strConst(a); ok && s == " " {
+		isSpace = true
+	}
+	if k, ok := intConst(a); ok && k == 32 {
+		isSpace = true
+	}
+	spos := c.W.Pos(cj.Pos())
+	if !isSpace {
+		c.Bad(skey, spos, "the gathering loop writes "+pretty(c.term(fn, a))+" besides the token: the value is not the tokens joined by single spaces")
+		return
+	}
+	dS := pc.canonOf(pc.At(cj.Block()))
+	okSep := false
+	lenLit := ""
+	for _, cj2 := range dS.cs {
+		for _, l := range cj2 {
+			if strings.Contains(l, "(*strings.Builder).Len(") {
+				lenLit = l
+			}
+		}
+	}
+	if lenLit != "" {
+		nl := normLit(lenLit)
+		positive := strings.HasPrefix(nl, "+(0 < (*strings.Builder).Len(") || strings.HasPrefix(nl, "-((*strings.Builder).Len(") && strings.HasSuffix(nl, " == 0)") || strings.HasPrefix(nl, "+((*strings.Builder).Len(") && strings.HasSuffix(nl, " != 0)")
+		okSep = positive && dnfEquiv(dS, dnfAndLit(dT, lenLit))
+	}
+	c.Check(okSep, skey, spos, "one space, exactly when the builder is not empty", "the separator is written under "+dS.String()+", expected exactly when the builder already holds text (token write: "+dT.String()+"): tokens would be joined differently from the way the same text is joined when written out in place")
 }
